@@ -396,6 +396,13 @@ class BddMachine(Machine):
                 raise Violation('ref(u) does not report the reference count of the node', ref=r)
             if r not in m or -r not in m:
                 raise Violation('a held reference is reported as not in the manager', ref=r)
+        self.step_invariant(st)
+
+    def step_invariant(self, st):
+        # queries that a library may answer from a memory of its own: the replay must ask them
+        # at the same points as the exploration did
+        for r, c, mask in st.h[:3]:
+            O.observe_queries(st.m, self.U, r, mask)
 
     def key(self, st):
         return S.key(st.m, (sorted(st.h), len(st.b)))
